@@ -241,6 +241,58 @@ func c04rest(c *Ctx) {
 		}
 		return true, ""
 	})
+	// timeout branch: the real writer is used, and timedOut set, only while the writer's mutex is held
+	c.forall("C04.R3", name+"#timeout", "on the ctx.Done() branch the timeout response is written to the real writer and timedOut is set while the writer's mutex is held throughout (a handler still running cannot interleave its own output or headers with the timeout response)", f, ps, func(p *px.Path) (bool, string) {
+		sel := p.First(func(e *px.Event) bool { return e.Kind == px.EvSelect && !e.InGo })
+		if sel == nil || sel.SelIndex < 0 || doneOf(sel.Addr) == nil {
+			return true, ""
+		}
+		held := 0
+		set, wrote := false, false
+		for i := sel.Seq + 1; i < len(p.Events); i++ {
+			e := &p.Events[i]
+			if e.InGo {
+				continue
+			}
+			switch {
+			case lockOn("mu", "Lock")(e):
+				held++
+			case lockOn("mu", "Unlock")(e):
+				held--
+				if e.InDefer {
+					continue
+				}
+				if wrote != set {
+					return false, "the writer's mutex is released between writing the timeout response and setting timedOut: the handler's Write/Flush can run in between and its output and headers are mixed into the timeout response"
+				}
+			case e.Kind == px.EvStore && px.FieldAddrIs(e.Addr, "timedOut", nil):
+				if held <= 0 {
+					return false, "timedOut is set without the writer's mutex"
+				}
+				if p.Abs(e.Val).K != px.True {
+					return false, "timedOut is not set to true"
+				}
+				set = true
+			case e.Kind == px.EvCall && !e.Inlined:
+				uses := e.Call.Recv != nil && isParam(e.Call.Recv, wP)
+				for _, a := range e.Call.Args {
+					if isParam(a, wP) {
+						uses = true
+					}
+				}
+				if uses {
+					wrote = true
+					if held <= 0 {
+						return false, "the timeout response is written to the real writer without holding the writer's mutex: a handler that is still running can Write/Flush concurrently and the client receives a mixture"
+					}
+				}
+			}
+		}
+		if p.Exit == px.ExitReturn && (!set || !wrote) {
+			return false, fmt.Sprintf("timeout branch: response written=%v, timedOut set=%v", wrote, set)
+		}
+		return true, ""
+	})
 	// panic channel capacity
 	capOK := false
 	for _, p := range ps {
